@@ -41,6 +41,7 @@ def scenarios(tier):
     out.append(dict(name="sparse-nr0-p1-rel01-rev", fn="run", params=dict(layout="sparse", numrec=0, per=1, N=N, rs=[0, 1], maxp=3, rev=True), cost=20))
     out.append(dict(name="sparse-nr2-p1-rel01-rev", fn="run", params=dict(layout="sparse", numrec=2, per=1, N=N, rs=[0, 1], maxp=3, rev=True), cost=20))
     out.append(dict(name="dense-nr2-p2-rel01-rev", fn="run", params=dict(layout="dense", numrec=2, per=2, N=4, rs=[0, 1], maxp=3, rev=True), cost=30))
+    out.append(dict(name="dense-after-warm-start", fn="warm_dense", params={}, cost=20))
     if q:
         # one scenario with records every second step (record number != step number)
         out.append(dict(name="sparse-nr0-p2-rel01", fn="run", params=dict(layout="sparse", numrec=0, per=2, N=N, rs=[0, 1], maxp=3), cost=20))
@@ -183,6 +184,69 @@ def run(W, p):
     return (tuple(mult), tuple(kd))
 
 
+def warm_dense(W, p):
+    """a run warm-started from a (sparse) file and written in the dense layout: column = identifier also when the state no
+    longer starts at pid 0 (the restart file holds only the survivors)"""
+    N, rs = 4, [0, 1]
+    R = len(rs)
+    mult = [W.idx(W.int(f"mult{i}", 0, 2)) for i in range(R)]
+    total = sum(mult)
+    if total > 3 or total == 0:
+        W.assume(False, "1..3 particles")
+    x = [W.real(f"x{i}", 6, 14) for i in range(R)]
+    u = W.real("u", -W.frac(1, 100), W.frac(1, 100))
+    owner = [i for i in range(R) for _ in range(mult[i])]
+    kd = [W.idx(W.int(f"kill{pid}", rs[owner[pid]], N)) for pid in range(total)]
+    kill = {}
+    for pid, k in enumerate(kd):
+        if k < N:
+            kill.setdefault(k, {})[pid] = True
+    tmp = W.scratch()
+    (tmp / "A").mkdir()
+    (tmp / "B").mkdir()
+    W.table(tmp / "r.rls", ["release_time", "X", "Y", "Z", "mult"], [[W.dt(T0 + rs[i] * DT), x[i], 10, 5, mult[i]] for i in range(R)])
+    conf = W.load("ladim.configure")
+
+    def config(sub, layout, warm=None, first=None):
+        cfg = base_config(W, start=T0, stop=T0 + N * DT, dt=DT, release_file=tmp / "r.rls", u=u,
+                          state=dict(instance_variables=dict(age=float), default_values=dict(age=0)),
+                          ibm=dict(kill=kill, age=True, kill_t0=W.dt(T0)),
+                          output=dict(filename=str(sub / (first or "out.nc")), output_period=DT, layout=layout, numrec=2,
+                                      instance_variables=dict(pid=ovar("i4"), X=ovar("f8"), Y=ovar("f8"), Z=ovar("f8"), age=ovar("f8"))),
+                          warm_start=(dict(filename=str(warm), variables=["age"]) if warm else {}))
+        cfg["forcing"]["filename"] = str(tmp / "unused-forcing.nc")
+        cfg["grid"]["filename"] = str(tmp / "unused-grid.nc")
+        conf.configure_v2(cfg)
+        return cfg
+
+    run_main(W, config(tmp / "A", "sparse"))
+    run_main(W, config(tmp / "B", "dense", warm=tmp / "A" / "out_000.nc", first="out_001.nc"))
+
+    def alive_at(pid, s_):
+        return rs[owner[pid]] <= s_ and kd[pid] >= s_
+
+    if not W.nc_exists(tmp / "B" / "out_001.nc"):
+        W.prove(False, "dense-fill", dict(missing="B/out_001.nc"))
+        return ("nofile",)
+    d = W.nc_read(tmp / "B" / "out_001.nc")
+    V = d["vars"]
+    conds, fills = [], True
+    info = dict(mult=mult, kd=kd, note="dense file of a run warm-started from the sparse file out_000.nc (records of steps 2, 3)")
+    for k, s_ in enumerate((2, 3)):
+        for var in ("X", "age"):
+            row = V[var][k] if k < len(V[var]) else []
+            for pid in range(total):
+                cell = row[pid] if pid < len(row) else "FILL"
+                if alive_at(pid, s_):
+                    exp = x[owner[pid]] + u * W.frac(DT, 100) * (s_ - rs[owner[pid]]) if var == "X" else DT * (s_ - rs[owner[pid]])
+                    conds.append(False if W.is_fill(cell) or cell == "FILL" else W.eq(cell, exp))
+                elif not (W.is_fill(cell) or cell == "FILL"):
+                    fills = False
+    W.prove(W.all(conds) if all(c is not False for c in conds) else False, "values", info)
+    W.prove(fills, "dense-fill", info)
+    return (tuple(mult), tuple(kd))
+
+
 def _units_ref(units, W):
     import numpy as np
 
@@ -203,5 +267,5 @@ def signature(v, scen):
     p = scen["params"]
     info = v.get("info") or {}
     if v["kind"] == "crash":
-        return f"crash:{info.get('exception')}:{p['layout']}"
-    return f"{v['clause']}:{p['layout']}"
+        return f"crash:{info.get('exception')}:{p.get('layout', 'dense-after-warm-start')}"
+    return f"{v['clause']}:{p.get('layout', 'dense-after-warm-start')}"
